@@ -322,11 +322,22 @@ def _annotated(I, node, env, ann, fname, k, kind, iterable=None):
             getter = lambda i: (R._add(i, enum_start), base_getter(i))  # noqa: E731
         hidden[idx_name] = lo
     # --- init
+    def freeze(v_):
+        # the value as it is at loop entry: objects whose fields the body may reassign are copied one level deep, so that
+        # s.at_entry.reader.fields["_view"] keeps meaning "the view at loop entry" (immutable values are shared)
+        if isinstance(v_, SObj):
+            cp = SObj(v_.cls, dict(v_.fields))
+            cp.ghost = dict(getattr(v_, "ghost", {}) or {})
+            return cp
+        if isinstance(v_, SBytes) and v_.kind == "bytearray":
+            return SBytes(v_.rope, v_.kind)
+        return v_
+
     snap = {}
     e_ = env
     while e_ is not None:
         for k_, v_ in e_.vars.items():
-            snap.setdefault(k_, v_)
+            snap.setdefault(k_, freeze(v_))
         e_ = e_.parent
     snap.update(ctx.ghost)
     from .program import rename_map
